@@ -3,6 +3,9 @@ import SieveModel.Lemmas.Machine
 import SieveModel.Model.Show
 import SieveModel.Lemmas.Lex
 import SieveModel.Lemmas.Brackets
+import SieveModel.Lemmas.Typed
+import SieveModel.Lemmas.Count
+import SieveModel.Generated.Tables
 /-!
 # C03 — Accepted scripts are represented faithfully: nothing dropped or invented
 
@@ -16,9 +19,17 @@ Proved here, for every argument definition (generic in the table):
   only ever appends;
 * `accepted_script_is_its_tokens_woven_with_white_space`: an accepted script lexes without error and is, byte for
   byte, its tokens in order (comments are tokens) with nothing but white space before, between and after them — the
-  lexer hands every other byte of the source to the parser.
+  lexer hands every other byte of the source to the parser;
+* `nothing_in_the_tree_is_invented`: every node of an accepted tree was built for an identifier token of the script that
+  names its definition, and every scalar argument and tag parameter is the text of a token of the script (of a kind its
+  slot admits) — `Lemmas/Typed.lean`, any table whose re-assignment slots agree in type;
+* `no_command_or_test_is_dropped_or_duplicated`: the trees of an accepted script have exactly as many nodes as the script
+  has identifier tokens — every command and test written is in the tree once, none is lost, none appears twice
+  (`Lemmas/Count.lean`: a count over result and stack that every delivered token changes by one if it is an accepted
+  identifier and by nothing otherwise; the placeholder a parent holds for a test under construction is what its frame
+  stands for).  For every table satisfying `Safe.TableSafe` (the live table: kernel-checked).
 
-Open: the machine-level statement (`result` unparses to exactly the token stream) is
+Open: the order-preserving machine-level statement (`result` unparses to exactly the token stream, argument values included) is
 `result_unparses_to_source_statement`; on the real code it is decided by the oracle, which
 compares the result tree with the tree of an independent RFC 5228 §8.2 generic-grammar parser.
 -/
@@ -69,6 +80,28 @@ theorem accepted_script_is_its_tokens_woven_with_white_space (T : Table) (text :
         | none => rfl
         | some pe => rw [he] at h; simp at h
     exact ⟨lr, rfl, herr, Lex.lex_weave text lr hl herr⟩
+
+/-- nothing in an accepted tree is invented: nodes come from identifier tokens, scalar values are token texts -/
+theorem nothing_in_the_tree_is_invented (T : Table) (hT : Typed.TableT T) (text : Bytes) (prev : PState) (r : List Node)
+    (h : Machine.parse T text prev = .accept r) :
+    ∃ lr, Lex.lex text = some lr ∧ ∀ n ∈ r, Typed.NodeT (fun tok => tok ∈ lr.toks) T n :=
+  Typed.accepted_tree_typed hT text prev r h
+
+/-- no command or test is dropped or duplicated: as many nodes as identifier tokens -/
+theorem no_command_or_test_is_dropped_or_duplicated (T : Table) (hT : Safe.TableSafe T) (text : Bytes) (prev : PState)
+    (r : List Node) (h : Machine.parse T text prev = .accept r) :
+    ∃ lr, Lex.lex text = some lr ∧ Count.cntNs r = Count.idents lr.toks :=
+  Count.accepted_node_count hT text prev r h
+
+theorem no_command_or_test_is_dropped_or_duplicated_live (text : Bytes) (prev : PState) (r : List Node)
+    (h : Machine.parse Generated.builtinTable text prev = .accept r) :
+    ∃ lr, Lex.lex text = some lr ∧ Count.cntNs r = Count.idents lr.toks :=
+  Count.accepted_node_count (T := Generated.builtinTable) (by decide +kernel) text prev r h
+
+/-- non-vacuity: `if true { keep; } else { stop; }` — five identifiers, five nodes -/
+example : (match Machine.parse Generated.builtinTable (sb "if true { keep; } else { stop; }") with
+    | .accept r => Count.cntNs r
+    | _ => 0) = 5 := by decide +kernel
 
 /-- non-vacuity: a two-token weave -/
 example : Lex.Weave [⟨.identifier, 1, sb "keep"⟩, ⟨.semicolon, 5, sb ";"⟩] (sb " keep;\n") :=
